@@ -26,7 +26,7 @@ def V(pid, sig, msg, step=None):
 # C04: stray replies change nothing
 
 STRAY_KINDS = ["stale", "stale", "stale", "stale_any", "stale_shape", "stale_shape", "badtag", "badtag", "unknown_svc",
-               "not_awaited", "not_awaited", "not_awaited", "not_awaited", "case_svc", "future"]
+               "not_awaited", "not_awaited", "not_awaited", "not_awaited", "case_svc", "future", "svc_near", "svc_near"]
 BAD_TAGS = ["%(id)x", "%(id)x-%(ser)x", "%(id)x_%(ser)xz", "%(id)x_%(ser)x_", "g%(id)x_%(ser)x", "%(id)x_", "_%(ser)x",
             "%(id)x_%(ser)x %(ser)x", "%(id)x__%(ser)x", "0x_%(ser)x", "%(id)x_-"]
 
@@ -42,6 +42,14 @@ def c04_s(draw, pid, tier, opts=None):
             filler.append(["C", 99, "127.0.0.1", 1000 + i % 50000])
         filler.append(["D", 99])
         base["events"] = filler + base["events"]
+    if draw(st.integers(0, 9)) == 0 and base["conf"]["services"]:
+        # service names are not limited to the 63 characters of an IRC server name
+        ren = {s_[0]: ("a-rather-long-service-name." * 3)[:63] + s_[0] for s_ in base["conf"]["services"]}
+        for s_ in base["conf"]["services"]:
+            s_[0] = ren[s_[0]]
+        for e in base["events"]:
+            if e[0] in ("X", "x") and e[2] in ren:
+                e[2] = ren[e[2]]
     n = len(base["events"])
     ids = sorted({e[1] for e in base["events"] if e[0] == "C"})
     stray = {
@@ -93,6 +101,28 @@ def c04_s(draw, pid, tier, opts=None):
             stray["pos"] = draw(st.integers(p2 + 1, len(base["events"])))
             base["stray"] = stray
             return base
+    # scenario "serial distance": two instances of one id exactly 16 / 256 / 4096 / 65536 announcements apart (so that
+    # their serials agree in the low 4 / 8 / 12 / 16 bits), and a late reply for the departed one
+    cs = {}
+    for j, e in enumerate(base["events"]):
+        if e[0] == "C" and e[1] != 99:
+            cs.setdefault(e[1], []).append(j)
+    multi = sorted(i_ for i_, v in cs.items() if len(v) >= 2)
+    if multi and draw(st.integers(0, 7)) == 0 and not any(e[0] == "reload" for e in base["events"]):
+        cid = draw(st.sampled_from(multi))
+        p1, p2 = cs[cid][0], cs[cid][1]
+        d = sum(1 for e in base["events"][p1 + 1:p2 + 1] if e[0] == "C")
+        G = draw(st.sampled_from([16, 256, 4096, 65536, 65536] + ([1 << 20] if tier == "thorough" else [])))
+        if G > d:
+            base["events"].insert(p2, ["gap", G - d])
+            stray.update({"kind": "stale_gap", "gap": G, "id": cid, "pos": draw(st.integers(p2 + 2, len(base["events"])))})
+            xs2 = [j for j, e in enumerate(base["events"]) if j > p2 and e[0] == "X" and e[1] == cid and e[4] == "cur"]
+            if xs2 and draw(st.booleans()):
+                j = draw(st.sampled_from(xs2))
+                stray["svc_name"] = base["events"][j][2]
+                stray["pos"] = j
+            base["stray"] = stray
+            return base
     # "shadow" an existing reply: same client and service, inserted right before it, so that the
     # stray line arrives while that service really owes an answer
     xs = [j for j, e in enumerate(base["events"]) if e[0] == "X" and e[4] == "cur"]
@@ -139,6 +169,9 @@ def stray_line(stray, conf, spec):
         olds = [i for i in spec.all if i.id == cid and i.serial != ser and (cid, i.serial) in obs]
         if olds:
             tag = obs[(cid, olds[-1].serial)]    # the tag the departed instance's queries really carried
+    elif kind == "stale_gap":
+        old = ser - stray.get("gap", 16)
+        tag = "%x_%x" % (cid & 0xffffffff, old if old >= 1 else (ser - 1 if ser > 1 else ser + 7))
     elif kind == "stale_any":
         olds = [i.serial for i in spec.all if i.id == cid and i.serial != ser] or [ser + 3]
         pick = olds[stray.get("pick", 0) % len(olds)]
@@ -157,6 +190,16 @@ def stray_line(stray, conf, spec):
         svc = "nobody.example"
     elif kind == "case_svc":
         svc = svc.swapcase()
+    elif kind == "svc_near":
+        # a different (unconfigured) name that agrees with the awaited one in its first 63 characters, or is a
+        # prefix / an extension of it
+        how = stray.get("shape", "prefix")
+        if len(svc) > 63 and how in ("prefix", "times16", "plus16"):
+            svc = svc[:63] + "-other-tail"
+        elif how in ("lead0", "drop_last"):
+            svc = svc[:-1]
+        else:
+            svc = svc + "x"
     if " " in tag:
         # extra field: the tag token ends at the space, the rest shifts the reply
         pass
@@ -208,6 +251,13 @@ def run_plain(conf, events, workdir, insert=None):
                         return steps, spec, info
                 if ev is None:
                     break
+                if ev[0] == "gap":
+                    # ev[1] announcements of a filler id in one write (no barrier in between), then its withdrawal
+                    d.send_raw(b"".join(b"99 C 127.0.0.1 %d 127.0.0.1 6667\n" % (1000 + k_ % 50000) for k_ in range(ev[1])) + b"99 D\n")
+                    out, in_use, _ = d.barrier()
+                    spec.serial += ev[1]
+                    steps.append(("(gap %d)" % ev[1], [b.decode("latin-1") for b in out], in_use))
+                    continue
                 if ev[0] == "reload":
                     newconf = dict(conf, services=ev[1])
                     out, in_use, _ = d.reload(ep.conf_text(newconf))
